@@ -437,7 +437,8 @@ ChunkSizingResult<IntegerT> adjustChunkSizing(
     if (range.isAuto()) {
       isStatic = true;
     } else if (!range.isStatic()) {
-      maxThreads = range.size() - wait;
+      // Never raise the thread budget above what the caller asked for.
+      maxThreads = std::min<size_type>(maxThreads, range.size() - wait);
     }
   }
 
